@@ -26,6 +26,7 @@ var ConfigKeys = []string{
 	"PENDING_DEPOSITS_LIMIT", "PENDING_PARTIAL_WITHDRAWALS_LIMIT", "PENDING_CONSOLIDATIONS_LIMIT",
 	"MAX_ATTESTER_SLASHINGS_ELECTRA", "MAX_ATTESTATIONS_ELECTRA",
 	"MAX_CONSOLIDATION_REQUESTS_PER_PAYLOAD", "MAX_DEPOSIT_REQUESTS_PER_PAYLOAD", "MAX_WITHDRAWAL_REQUESTS_PER_PAYLOAD",
+	"MAX_EXTRA_DATA_BYTES", "BYTES_PER_LOGS_BLOOM",
 }
 
 // cfgToken renders the SSZ-relevant constants of a spec as the positional token of an op line.
@@ -118,6 +119,9 @@ func presets(rng *rand.Rand) []preset {
 	}
 	rnd := map[string]uint64{}
 	for _, k := range ConfigKeys {
+		if k == "MAX_EXTRA_DATA_BYTES" || k == "BYTES_PER_LOGS_BLOOM" {
+			continue // varied only by the `xdata` preset (zrnt hard-codes them: known finding)
+		}
 		switch rng.Intn(3) {
 		case 0:
 			rnd[k] = uint64(1 + rng.Intn(8))
@@ -134,5 +138,11 @@ func presets(rng *rand.Rand) []preset {
 		{"tiny", cfgToken(customSpec(tiny))},
 		{"odd", cfgToken(customSpec(odd))},
 		{"random", cfgToken(customSpec(rnd))},
+		// the two bellatrix preset values zrnt hard-codes (package constants 32 and 256): only the types that
+		// hold them directly are run under this preset (see xdataTypes), the disagreement is a known finding
+		{"xdata", cfgToken(customSpec(map[string]uint64{"MAX_EXTRA_DATA_BYTES": 48, "BYTES_PER_LOGS_BLOOM": 128}))},
 	}
 }
+
+// xdataTypes: the types run under the `xdata` preset
+var xdataTypes = map[string]bool{"common.ExtraData": true, "common.LogsBloom": true, "bellatrix.ExecutionPayloadHeader": true}
